@@ -5,6 +5,8 @@ import SeqVerif.Model.AggOut
 import SeqVerif.Model.AggE2E
 import SeqVerif.Model.AggLimits
 import SeqVerif.Model.AggCodec
+import SeqVerif.Model.AggNum
+import SeqVerif.Model.AggShard
 import SeqVerif.Extracted.C06
 set_option linter.unusedVariables false
 /-!
@@ -342,6 +344,46 @@ theorem c06_json_roundtrip (render : Int → List Nat) (parse : List Nat → Opt
       parse (render (SV.Async.toI64 kh.1.mid)) = some (SV.Async.toI64 kh.1.mid) ∧ 124 ∉ render (SV.Async.toI64 kh.1.mid)) :
     asFromJSON parse (asToJSON render a) = a := json_roundtrip render parse a hn hk
 
+/-! ## which tokens are numbers, and a refusing store -/
+
+/-- **the numeric value of a field token** is the one `strconv.ParseFloat` assigns (`parseNumSpec`, the grammar
+written out): decimal digits are decimal whatever their padding - `0100` is one hundred, not sixty-four; `0x..`
+needs a `p` exponent, `0b` / `0o` / spaces / `inf` / `nan` in any spelling are not numbers; `1_000` is 1000. -/
+theorem c06_token_values :
+    tokenInt "0100" = some 100 ∧ tokenInt "010" = some 10 ∧ tokenInt "-0020" = some (-20) ∧ tokenInt "007" = some 7 ∧
+    tokenInt "+5" = some 5 ∧ tokenInt "1e2" = some 100 ∧ tokenInt "2.50e1" = some 25 ∧ tokenInt "5." = some 5 ∧
+    tokenInt "0x10p0" = some 16 ∧ tokenInt "0X1.8p1" = some 3 ∧ tokenInt "1_000" = some 1000 ∧
+    tokenInt "0x10" = none ∧ tokenInt "0b101" = none ∧ tokenInt "0o17" = none ∧ tokenInt "1__0" = none ∧
+    tokenInt " 5" = none ∧ tokenInt "5 " = none ∧ tokenInt "Inf" = none ∧ tokenInt "-inf" = none ∧
+    tokenInt "infinity" = none ∧ tokenInt "NaN" = none ∧ tokenInt "" = none ∧ tokenInt "1e" = none := by decide
+
+/-- **aggregated values are the tokens' values**: with `fval s = tokenInt (tok s)` (the token text of field source
+`s`), every time bin's container summarises exactly `tokenInt` of the matching documents' field tokens - the
+instance of `c06_field_stats` at the specification of `parseNum` (likewise for `c06_group_stats`,
+`c06_group_stats_merged`, `c06_field_stats_merged`, which are parametric in `fval`) -/
+theorem c06_values_are_token_values (lim : Nat) (pick : List Int → Nat) (collect : Bool) (tok : Nat → String) (evs : List Ev)
+    (hp : ParseOk (fun s => tokenInt (tok s)) evs)
+    (hl : collect = true → ∀ b, (evVals (fun s => (tokenInt (tok s)).getD 0) (evs.filter fun ev => ev.bin = b)).length ≤ lim) :
+    ∃ a, histAggRun lim pick collect (fun s => tokenInt (tok s)) evs = some a ∧
+      ∀ b, evs.filter (fun ev => ev.bin = b) ≠ [] → ∃ c, a.get ⟨b, ""⟩ = some c ∧
+        Rep (evVals (fun s => (tokenInt (tok s)).getD 0) (evs.filter fun ev => ev.bin = b))
+            (evNe (evs.filter fun ev => ev.bin = b)) collect c := by
+  obtain ⟨a, ha, _, _, hb⟩ := histAggRun_spec lim pick collect (fun s => tokenInt (tok s)) evs hp hl
+  exact ⟨a, ha, fun b hne => (hb b).2 hne⟩
+
+/-- **a refusing store is never merged as an empty shard**: `searchShard` has an error arm for every
+`SearchErrorCode` but `NO_ERROR` (`c06_x_shard_codes`: the extracted arms), so when the proxy reports plain success
+every shard answered `NO_ERROR` and all of them are merged; otherwise the answer is an error or flagged partial. -/
+theorem c06_no_silent_short (codes : List Code) (n : Nat)
+    (hok : searchOutcome (codes.map (shardOutcome SV.Extracted.C06.shardCodeArms)) = .ok n) :
+    n = codes.length ∧ ∀ c, c ∈ codes → c = .noError :=
+  searchOutcome_ok _ (by decide) codes n hok
+
+/-- the mapping code -> outcome is total: every declared code other than `NO_ERROR` is refused -/
+theorem c06_shard_code_total (c : Code) (hc : c ≠ .noError) :
+    shardOutcome SV.Extracted.C06.shardCodeArms c = .refused c :=
+  shardOutcome_total _ (by decide) c hc
+
 /-! ## values -/
 
 /-- **count / sum / min / max / not-exists of a bin** are those of the documents' values: this is the content of
@@ -546,6 +588,19 @@ theorem c06_x_conversions :
     apiHistTs = ["timestamppb.New(seq.MIDToTime(ts))"] ∧
     midToTimeExpr = ["time.Unix(0, 0).Add(MIDToDuration(t))", "time.Duration(t) * time.Millisecond"] := by decide
 
+/-- `searchShard` switches over `resp.Code` with an error-returning arm for every declared `SearchErrorCode` other
+than `NO_ERROR` (no default arm), and the model's `Code` lists exactly the declared values -/
+theorem c06_x_shard_codes :
+    shardCodeArmsReturnErr = true ∧
+    searchErrorCodes = Code.all.map Code.name ∧
+    ∀ c, c ∈ Code.all → c ≠ .noError → ("storeapi." ++ c.name) ∈ shardCodeArms := by decide
+
+/-- `parseNum` is exactly `strconv.ParseFloat(str, 64)` with errors, NaN and Inf rejected - no other strconv call
+(no integer fast path, no base-0 reading) -/
+theorem c06_x_parse_num :
+    parseNumCalls = ["strconv.ParseFloat(str, 64)"] ∧
+    parseNumErrConds = ["err != nil || math.IsNaN(num) || math.IsInf(num, 0)"] := by decide
+
 /-- histogram bucket rule of `iterateEvalTree`, accumulation in `MergeQPRs`, time bins of `provideExtractTimeFunc` -/
 theorem c06_x_hist :
     histBucketAssigns = [":= mid", "-= bucket % seq.MID(params.HistInterval)"] ∧
@@ -611,5 +666,11 @@ example : midToTs 1758800000123 = (1758800000, 123000000) ∧ midToTs 0 = (0, 0)
     midToTs 9223372036854775807 = (9223372036854775, 807000000) ∧
     midToTs 9223372036854775808 = (-9223372036854776, 192000000) ∧
     midToTs 18446744073709551615 = (-1, 999000000) ∧ tsToMid (-1, 999000000) = 18446744073709551615 := by decide
+
+/-- `c06_no_silent_short`: two shards answering NO_ERROR are merged; one refusing shard makes the answer partial,
+both refusing an error -/
+example : searchOutcome ([Code.noError, .noError].map (shardOutcome SV.Extracted.C06.shardCodeArms)) = .ok 2 ∧
+    searchOutcome ([Code.noError, .tooManyUniq].map (shardOutcome SV.Extracted.C06.shardCodeArms)) = .partialResponse 1 ∧
+    searchOutcome ([Code.tooManyUniq, .tooManyUniq].map (shardOutcome SV.Extracted.C06.shardCodeArms)) = .error := by decide
 
 end SV.Props.C06
